@@ -63,6 +63,8 @@ def rand_path(rng, cfg, maxd=None, allow_root=False, target=False):
 
 def gen_query(rng, cfg):
     kind = rng.choice(cfg.query_kinds)
+    if kind == 'get_size' and rng.random() < 0.6:
+        kind = rng.choice(cfg.query_kinds)
     mode = 'H' if rng.random() < cfg.p_hash else 'M'
     return ['q', kind, rand_path(rng, cfg, allow_root=True), mode]
 
